@@ -57,7 +57,7 @@ def _case(draw, tier):
     c = draw(query_case(_cfg(tier)))
     c["neg_spelling"] = draw(st.sampled_from(["not_", "not_", "~", "desc"]))
     c["abandon_first"] = draw(st.sampled_from([0, 0, 1, 1, 2]))
-    if chance(draw, 1, 8):
+    if chance(draw, 1, 5):
         # a three-step story around one comparison object k: first asked for its false results too, but only for part of
         # its bindings (narrowed by another conjunct, or given up early); then asked for true results only, for all
         # bindings; then negated inside a conjunction (the disjunction De Morgan makes of it needs the false results of k)
